@@ -47,7 +47,7 @@ def cases(tier):
                         opts += [[x, y] for x, y in itertools.combinations(al, 2) if [x, y] not in opts]
                     per_bond.append(opts)
                 for tc in itertools.product(*per_bond):
-                    for sp in ('none', 'each', 'first-last'):
+                    for sp in ('none', 'each', 'first-last', 'dup'):
                         for thr in (0, 1e-12):
                             yield {'k': 'slim', 'ss': list(ss), 'cyclic': cyclic, 'tc': [list(x) for x in tc], 'sp': sp, 'thr': thr}
             # every single-cell reaction per cell, two-cell part fixed
@@ -124,7 +124,7 @@ def check_generator(r, key, op, G, ss):
     if not r.true(key + ':dims', list(op.row_dims) == list(ss) and list(op.col_dims) == list(ss)):
         return
     M = mat(op)
-    sc = max(1.0, np.abs(G).max())
+    sc = max(1.0, np.abs(G).max()) if np.abs(G).max() > 1e-6 else np.abs(G).max()
     r.true(key + ':generator', np.abs(M - G).max() <= 1e-11 * sc, 'max deviation %.3e from the state-enumeration generator' % np.abs(M - G).max())
     r.true(key + ':column-sums', np.abs(M.sum(axis=0)).max() <= 1e-11 * sc, 'max |column sum| %.3e' % np.abs(M.sum(axis=0)).max())
     off = M - np.diag(np.diag(M))
@@ -146,6 +146,9 @@ def run_case(case, seed):
                 single = [[] for _ in range(d)]
             elif case['sp'] == 'each':
                 single = [[[0, ss[i] - 1, RATES[i % 3]]] for i in range(d)]
+            elif case['sp'] == 'dup':
+                # the SAME single-cell transition listed twice on a cell (two channels with different rates): the rates add up
+                single = [[[0, 1, 1.5], [0, 1, 0.7]]] + [[] for _ in range(d - 2)] + [[[ss[-1] - 1, 0, 3.0], [ss[-1] - 1, 0, 0.25], [0, 1, 1.0]]]
             else:
                 single = [[[1, 0, 0.5]]] + [[] for _ in range(d - 2)] + [[[ss[-1] - 1, 0, 3.0], [0, 1, 1.0]]]
             r.nontrivial = any(two) or case['sp'] != 'none'
@@ -156,6 +159,10 @@ def run_case(case, seed):
             two = [[two_alpha(ss[b], ss[(b + 1) % d])[b % 6] + [RATES[b % 3]]] for b in range(nb)]
             r.nontrivial = True
             key = 'slim:%s:single-cell' % ('cyclic' if cyclic else 'open')
+        if k == 'slim' and case['sp'] == 'first-last' and case['thr'] == 0:
+            # all rates in a fine time unit (x 1e-9): the generator is linear in the rates, whatever their magnitude
+            single = [[[a_, b_, k_ * 1e-9] for a_, b_, k_ in c_] for c_ in single]
+            two = [[[a1, b1, a2, b2, k_ * 1e-9] for a1, b1, a2, b2, k_ in b_] for b_ in two]
         G = generator(ss, single, two, cyclic)
         s_in = [[list(x) for x in c] for c in single]; t_in = [[list(x) for x in b] for b in two]
         with r.op(key + ':call'):
